@@ -49,36 +49,66 @@ def env_pre(features):
     return pre
 
 
-def build_custom(instance, with_jobs, seed):
+# building blocks by recipe step number (coq/model/CmdC16.v, recipe_step); step [0, node] = add_node
+RECIPE_STEPS = {1: "add_operation_nodes", 2: "add_disjunctive_edges", 3: "add_conjunctive_edges",
+                4: "add_source_sink_nodes", 5: "add_source_sink_edges", 6: "add_machine_nodes",
+                7: "add_operation_machine_edges", 8: "add_machine_machine_edges",
+                9: "add_same_job_operations_edges", 10: "add_job_nodes", 11: "add_operation_job_edges",
+                12: "add_job_job_edges", 13: "add_global_node", 14: "add_machine_global_edges",
+                15: "add_job_global_edges"}
+
+
+def custom_recipe(num_machines, num_jobs, with_jobs, seed):
     """An agent-task-family graph assembled from the library's PUBLIC building blocks with the machine nodes
     (and job nodes) added in a shuffled order; JobShopGraph.get_machine_node / get_job_node look nodes up by
-    machine_id / job_id, nothing requires id order. Outside the four builders of the theorems: this stream is
-    judged by the extracted specification only (no model tie)."""
+    machine_id / job_id, nothing requires id order. The recipe is executed by the real building blocks
+    (build_from_recipe) and by the model's (runner command 1703): the custom stream is tied like the built-in
+    builders; the THEOREMS of C17.v / C17b.v are about the four built-in builders only."""
     import random as _random
 
+    r = _random.Random(seed)
+    steps = [[1]]
+    ms = list(range(num_machines))
+    r.shuffle(ms)
+    steps += [[0, [0, 2, m]] for m in ms]
+    steps.append([7])
+    if with_jobs:
+        js = list(range(num_jobs))
+        r.shuffle(js)
+        steps += [[0, [0, 3, j]] for j in js]
+        steps += [[11], [13], [14], [15]]
+    else:
+        steps += [[8], [9]]
+    return steps
+
+
+def build_from_recipe(instance, steps):
     from job_shop_lib import graphs
     from job_shop_lib.graphs import JobShopGraph, Node, NodeType
+    from job_shop_lib.graphs import _build_agent_task_graph as _atg
 
-    r = _random.Random(seed)
-    g = JobShopGraph(instance)
-    ms = list(range(instance.num_machines))
-    r.shuffle(ms)
-    for m in ms:
-        g.add_node(Node(node_type=NodeType.MACHINE, machine_id=m))
-    graphs.add_operation_machine_edges(g)
-    if with_jobs:
-        js = list(range(instance.num_jobs))
-        r.shuffle(js)
-        for j in js:
-            g.add_node(Node(node_type=NodeType.JOB, job_id=j))
-        graphs.add_operation_job_edges(g)
-        graphs.add_global_node(g)
-        graphs.add_machine_global_edges(g)
-        graphs.add_job_global_edges(g)
-    else:
-        graphs.add_machine_machine_edges(g)
-        graphs.add_same_job_operations_edges(g)
+    g = JobShopGraph(instance, add_operation_nodes=False)
+    for st in steps:
+        if st[0] == 0:
+            _, t, *rest = st[1]
+            if t == 2:
+                g.add_node(Node(node_type=NodeType.MACHINE, machine_id=rest[0]))
+            elif t == 3:
+                g.add_node(Node(node_type=NodeType.JOB, job_id=rest[0]))
+            elif t == 4:
+                g.add_node(Node(node_type=NodeType.GLOBAL))
+            else:
+                raise ValueError(st)
+        elif st[0] == 1:
+            g.add_operation_nodes()
+        else:
+            name = RECIPE_STEPS[st[0]]
+            (getattr(graphs, name, None) or getattr(_atg, name))(g)
     return g
+
+
+def build_custom(instance, with_jobs, seed):
+    return build_from_recipe(instance, custom_recipe(instance.num_machines, instance.num_jobs, with_jobs, seed))
 
 
 BUILDER_NAMES = BUILDERS + ["custom agent-task graph (public building blocks, shuffled machine nodes)",
@@ -118,6 +148,7 @@ def rows_of(dispatcher):
 class C17(Check):
     pid = "C17"
     LATE_ATTACH = True
+    RECIPE_TIE = True
     assumptions = [
         "durations >= 0 (the property says positive; the proofs do not need it), every operation has >= 1 "
         "machine, every job non-empty",
@@ -419,7 +450,12 @@ class C17(Check):
         # (a late-attached updater is judged from its first update on; until then its graph is the one it was built on)
         first = (1702, [spec, case["filters"], nodes, state0[0], [[st[1], st[2][0], st[2][1]] for st in steps[k:]]])
         if case["builder"] >= 4:
-            # custom graph: no model of its builder; the same layout is kept with a placeholder run on builder 1
+            if self.RECIPE_TIE:
+                recipe = custom_recipe(common.num_machines_of(spec), len(spec), case["builder"] == 5,
+                                       case.get("shuffle", 0))
+                return [(1703, [spec, case["filters"], recipe, case["pre"], case["rm_m"], case["rm_j"], events]),
+                        first] + reqs
+            # custom graph without a model of its builder: the layout is kept with a placeholder run on builder 1
             return [(1701, [spec, case["filters"], 1, [], 1, 1, []]), first] + reqs
         return [
             (1701, [spec, case["filters"], case["builder"], case["pre"], case["rm_m"], case["rm_j"], events]),
@@ -432,7 +468,9 @@ class C17(Check):
         nodes, state0, steps, (op_ids_ok, same_graph), after_reset = obs
         model, oracle = outs[0], outs[1]
         spec = case["spec"]
-        custom = case["builder"] >= 4
+        custom = case["builder"] >= 4 and not self.RECIPE_TIE
+        if case["builder"] >= 4 and self.RECIPE_TIE:
+            self.note("custom_graph_tied_through_recipe")
         if not op_ids_ok:
             fails.append(Failure("oracle", "op-node-id-is-operation-id",
                                  "an operation node's id differs from operation.operation_id"))
